@@ -348,6 +348,51 @@ let replay_kcprune ~id (f : itree) (g : itree) (h1 : itree) (log : Sexp.t list) 
     let (res', _) = kcompose_prune (oracle_by_rows lplog) tol (nat_of_int (arity + 1)) kf pg in
     if ndec res <> ndec res' then bump "kcprune_forwarded"
   | _ -> bump "kcprune_mirror_not_a_tree"
+(* x-c05k begin: cached states of a K-ary dump against the EXACT per-row path polytopes (EdgeRegion.label_rows per edge;
+   the binary cache_ok / Cache.cache_check only knows labels 0, 1): every stored witness list is non-empty, every
+   witness has the input dimension and lies within tol in the closed path polytope of its node (KPruneCache.kwit_okb),
+   every Infeasible mark is certified thin.  None = kernel unknown; Some l = indices of the offending nodes.
+   kcprune_cache: the cases whose RECEIVER passes this check (the hypothesis of C05_kprune_witnesses / _marks; the
+   harness plants exact states) must pass it on the pruned result -- deciding, tag kcprune-cache. *)
+let kcache_bad (n : int) (t : ktree) : int list option =
+  let unknown = ref false and bad = ref [] in
+  let rec go q = function
+    | KU -> ()
+    | KN (i, _, p, st, ch) ->
+      (match st with
+       | FeasW ws ->
+         if (match ws with [] -> true | _ -> false) || not (List.for_all (fun w -> List.length w = n && contains_tol tol q w) ws)
+         then bad := int_of_nat i :: !bad
+       | Infeas ->
+         (match thin_cert (nat_of_int n) tau q with
+          | Some true -> () | Some false -> bad := int_of_nat i :: !bad | None -> unknown := true)
+       | _ -> ());
+      List.iteri (fun l c -> go (q @ label_rows p (nat_of_int l)) c) ch in
+  go [] t;
+  if !unknown then None else Some (List.rev !bad)
+let kcprune_cache ~id (f : itree) (h1 : itree) : bool =
+  let fuel arena = nat_of_int (List.length arena + 1) in
+  let rt t = nat_of_int (match t.root with Some r -> r | None -> 0) in
+  let af = arena_of f and ah = arena_of h1 in
+  let cached t = List.exists (fun nd -> match nd.nstate with FeasW _ | Infeas -> true | _ -> false) t.nodes in
+  match kabs (fuel af) af (rt f), kabs (fuel ah) ah (rt h1) with
+  | Some kf, Some kh ->
+    (match kcache_bad f.in_dim kf with
+     | Some [] ->
+       bump "kcprune_cache_checked";
+       if cached f then bump "kcprune_cache_operand_cached";
+       if cached h1 then bump "kcprune_cache_result_cached";
+       (match kcache_bad h1.in_dim kh with
+        | Some [] -> true
+        | Some bad ->
+          result id "VIOL" "kcprune-cache"
+            (Printf.sprintf "unsound cached state at node(s) %s of the pruned composition (K = 4) although every cached state of the receiver is sound"
+               (String.concat "," (List.map string_of_int bad))); false
+        | None -> result id "UNK" "kcprune-cache" "kernel-unknown in cache check"; false)
+     | Some _ -> bump "kcprune_cache_operand_unsound"; true
+     | None -> bump "kcprune_cache_operand_unknown"; true)
+  | _ -> true
+(* x-c05k end *)
 let check_kcprune ~id sf sg s0 s1 (log : Sexp.t list) (pts : Sexp.t list) : unit =
   bump "kcprune";
   log_stats log;
@@ -375,7 +420,8 @@ let check_kcprune ~id sf sg s0 s1 (log : Sexp.t list) (pts : Sexp.t list) : unit
           let ok1 = equiv_mod_thin ~id ~tag:"kcompose-prune-preserves" n p1 p0 in
           let ok2 = equiv_mod_thin ~id ~tag:"kcompose-prune-law" n p1 (compose pf pg) in
           let ok3 = points_check ~id ~tag:"evaluate" p1 pts in
-          if ok1 && ok2 && ok3 then result id "OK" "kcprune" ""
+          let ok4 = (try kcprune_cache ~id f h1 with Nonfinite -> true) (* x-c05k *) in
+          if ok1 && ok2 && ok3 && ok4 then result id "OK" "kcprune" ""
         | _ -> result id "VIOL" "abs" "an arena is not a tree")
      | _ -> result id "OK" "skipped" "")
 (* x-kprune end ------------------------------------------------------------------------------------------------ *)
